@@ -15,7 +15,20 @@
      tags      = name~tag~version,...        the chain files of the stack
      version   = - | =text                   the version named on the command line
      flavors   = native,fallback,...
-   answer: ok TAB env TAB aliases TAB decisions-taken | fail TAB decisions-taken | err TAB kind *)
+   answer: ok TAB env TAB aliases TAB decisions-taken | fail TAB decisions-taken | err TAB kind
+   line: text TAB tworld TAB flavor,root,maxdepth,keep TAB env TAB aliases TAB decisions TAB name TAB fwd TAB just TAB fuel
+             TAB types TAB implicit
+     the setup model run from table TEXTS (coq/Model/SetupText.v: C11's table_actions, expandEupsVariables, the
+     command kinds, processArgs); same fields as req, except
+     tworld    = tproduct|tproduct...    tproduct = name:version:dir:flavor:text   (text = the table file, percent-encoded)
+                 the flavor a product is declared under comes from here (the fifth field of the configuration is ignored)
+     types     = Eups.setupType, joined by ','
+     implicit  = the words of the implicit product line (hooks.config.Eups.defaultProduct), joined by ','; empty = none
+   answer: as req, or  outside TAB kind  when a table does not parse (BadTable, Crash ...) or uses a construct that
+     Model/Setup.v cannot express (Refused)
+   line: ttable TAB tproduct TAB flavor,root,maxdepth,keep TAB types TAB implicit
+     the actions of one table text (product_of_text), in the encoding of the world field of req
+   answer: ok TAB act+act... | outside TAB kind *)
 let dec_env (s : Stdlib.String.t) =
   dec_list ';' (fun kv ->
     match Stdlib.String.index_opt kv '=' with
@@ -80,8 +93,51 @@ let dec_tag (s : Stdlib.String.t) =
 let enc_decisions (ds : (ascii list) option list) : Stdlib.String.t =
   Stdlib.String.concat "," (Stdlib.List.map (fun d -> match d with None -> "!" | Some v -> enc_str v) ds)
 
+let dec_tproduct (s : Stdlib.String.t) =
+  match Stdlib.String.split_on_char ':' s with
+  | [n; v; d; fl; t] -> ({ t_name = dec_str n; t_version = dec_str v; t_dir = dec_str d; t_text = dec_str t }, dec_str fl)
+  | [n; v; d; fl] -> ({ t_name = dec_str n; t_version = dec_str v; t_dir = dec_str d; t_text = [] }, dec_str fl)
+  | _ -> failwith "bad text product"
+
+let enc_act (a : action) : Stdlib.String.t =
+  match a with
+  | ASetup (o, n, j) -> "S," ^ field_of_bool o ^ "," ^ enc_str n ^ "," ^ field_of_bool j
+  | APath (ap, var, v, d) -> "P," ^ field_of_bool ap ^ "," ^ enc_str var ^ "," ^ enc_str v ^ "," ^ enc_str [d]
+  | ASet (k, v) -> "E," ^ enc_str k ^ "," ^ enc_str v
+  | AUnset k -> "U," ^ enc_str k
+  | AAlias (k, v) -> "A," ^ enc_str k ^ "," ^ enc_str v
+  | ANone -> "N"
+
+let text_cfg (cfg0 : config) tps : config =
+  { cfg0 with c_flavors =
+      Stdlib.List.filter_map (fun (tp, fl) -> if fl = cfg0.c_flavor then None
+                                              else Some ((tp.t_name, tp.t_version), fl)) tps }
+
 let handle (f : Stdlib.String.t array) : Stdlib.String.t =
   match f.(0) with
+  | "ttable" ->
+    let (tp, fl) = dec_tproduct f.(1) in
+    let cfg = text_cfg (dec_cfg f.(2)) [(tp, fl)] in
+    let tc = { tc_types = dec_strlist ',' (if Stdlib.Array.length f > 3 then f.(3) else "");
+               tc_implicit = dec_strlist ',' (if Stdlib.Array.length f > 4 then f.(4) else "") } in
+    (match product_of_text cfg tc tp with
+     | Err k -> "outside\t" ^ err_name k
+     | Ok p -> "ok\t" ^ Stdlib.String.concat "+" (Stdlib.List.map enc_act p.p_actions))
+  | "text" ->
+    let tps = Stdlib.List.map dec_tproduct (split_sep '|' f.(1)) in
+    let cfg = text_cfg (dec_cfg f.(2)) tps in
+    let st = { s_env = dec_env f.(3); s_aliases = dec_env f.(4) } in
+    let ds = dec_decisions f.(5) in
+    let fuel = nat_of_int (int_of_string f.(9)) in
+    let tc = { tc_types = dec_strlist ',' (if Stdlib.Array.length f > 10 then f.(10) else "");
+               tc_implicit = dec_strlist ',' (if Stdlib.Array.length f > 11 then f.(11) else "") } in
+    (match setup_text cfg tc (Stdlib.List.map fst tps) fuel st ds (dec_str f.(6)) (bool_of_field f.(7)) O (bool_of_field f.(8)) with
+     | Err k -> "outside\t" ^ err_name k
+     | Ok (RDone (true, st', ds')) -> "ok\t" ^ enc_env st'.s_env ^ "\t" ^ enc_env st'.s_aliases ^ "\t" ^ string_of_int (Stdlib.List.length ds')
+     | Ok (RDone (false, _, ds')) -> "fail\t" ^ string_of_int (Stdlib.List.length ds')
+     | Ok (RRaise (_, _)) -> "raise"
+     | Ok RFuel -> "err\tOutOfFuel"
+     | Ok RBad -> "err\tBadDecisions")
   | "full" ->
     let fw = { fw_products = Stdlib.List.map dec_product (split_sep '|' f.(1));
                fw_lines = Stdlib.List.map dec_lines (split_sep '|' f.(2));
